@@ -65,6 +65,9 @@ def gen(rng, tier, shard, nshards):
             sd2 = G.rand_shape(rng, pd, clamped_only=True, mindeg=2, **kw)
             yield {'kind': 'history', 'sd': sd2, 'seed': rng.randrange(1 << 30) | 1, 'mode': rng.choice(['single', 'single', 'two']),
                    'uservalue': True}
+            # the same on a curve through the METHOD route with small decimal values (1/300: the object stores another double)
+            sd5 = G.rand_shape(rng, 1, clamped_only=True, mindeg=2, maxextra=5, normalize=True)
+            yield {'kind': 'history', 'sd': sd5, 'seed': rng.randrange(1 << 30) | 1, 'mode': 'single', 'uservalue': True, 'method_only': True}
 
 
 def stored_knot(o, d, u):
@@ -381,7 +384,7 @@ def check(case, ctx):
             if big:
                 ctx.tag('big-coordinates')
             pick = so.pick_insertion(rng, o, d, prefer_knot=0.35 if not (uservalue or big) else 0.0, mindist=0.03 if rng.random() < 0.5 else 1e-3,
-                                     small=0.6 if uservalue else (0.8 if big else 0.0))
+                                     small=(0.9 if case.get('method_only') else 0.6) if uservalue else (0.8 if big else 0.0))
             if pick is None:
                 continue
             u, s, tag = pick
@@ -421,7 +424,7 @@ def check(case, ctx):
                 full = False
                 ctx.tag('partial-removal')
             # remove in one call or one by one
-            via = rng.choice(['operations', 'method'])
+            via = rng.choice(['operations', 'method']) if not case.get('method_only') else 'method'
             if k > 1 and rng.random() < 0.4:
                 for _ in range(k):
                     if not do_remove(pl['d'], pl['u'], 1, via, 'insert x%d then remove one by one' % pl['r']):
